@@ -39,6 +39,89 @@ func (a prio) CompareTo(b prio) int {
 	return c
 }
 
+func (a prio) val() int { return a.p }
+
+// The Comparable contract ("CompareTo(other T) int") promises a sign, not a magnitude: the other
+// priority types of the tie answer with differences, large constants, the ends of the int range and
+// asymmetric constants.  Descending = the arguments swapped (negating MinInt would overflow).
+func signCmp(a, b int, desc bool, neg, pos int) int {
+	if desc {
+		a, b = b, a
+	}
+	switch {
+	case a < b:
+		return neg
+	case a > b:
+		return pos
+	}
+
+	return 0
+}
+
+type prioDiff struct { // the usual "return a - b" (the generators keep |p| <= 2^62: no overflow)
+	p    int
+	desc bool
+}
+
+func (a prioDiff) CompareTo(b prioDiff) int {
+	if a.desc {
+		return b.p - a.p
+	}
+
+	return a.p - b.p
+}
+func (a prioDiff) val() int { return a.p }
+
+type prioBig struct {
+	p    int
+	desc bool
+}
+
+func (a prioBig) CompareTo(b prioBig) int { return signCmp(a.p, b.p, a.desc, -1<<40, 1<<40) }
+func (a prioBig) val() int                { return a.p }
+
+type prioExt struct {
+	p    int
+	desc bool
+}
+
+func (a prioExt) CompareTo(b prioExt) int {
+	return signCmp(a.p, b.p, a.desc, math.MinInt64, math.MaxInt64)
+}
+func (a prioExt) val() int { return a.p }
+
+type prioAsym struct {
+	p    int
+	desc bool
+}
+
+func (a prioAsym) CompareTo(b prioAsym) int { return signCmp(a.p, b.p, a.desc, -3, 5) }
+func (a prioAsym) val() int                 { return a.p }
+
+type prioTwo struct {
+	p    int
+	desc bool
+}
+
+func (a prioTwo) CompareTo(b prioTwo) int { return signCmp(a.p, b.p, a.desc, -2, 1) }
+func (a prioTwo) val() int                { return a.p }
+
+// prioLike is what the generic wrappers need of a priority type.
+type prioLike[P any] interface {
+	generalheap.Comparable[P]
+	val() int
+}
+
+var cmpKinds = []string{"unit", "diff", "big", "ext", "asym", "two"}
+
+func kindOf(f []string) string {
+	if len(f) > 1 {
+		return f[1]
+	}
+
+	return "unit"
+}
+
 func parseDesc(s string) bool {
 	switch s {
 	case "asc":
@@ -143,23 +226,41 @@ func (w *pqW) nontrivial() bool {
 // generalheap.Heap driven by container/heap directly (white-box: indices and array layout)
 // ---------------------------------------------------------------------------------------------
 
-type ghW struct {
-	h     generalheap.Heap[prio, int]
-	elems []*generalheap.HeapElement[prio, int]
+type ghW[P prioLike[P]] struct {
+	h     generalheap.Heap[P, int]
+	elems []*generalheap.HeapElement[P, int]
+	mk    func(p int) P
 	ms    multiset
 	heapStats
 }
 
+func mkGH[P prioLike[P]](d bool, mk func(p int) P) world {
+	return &ghW[P]{h: make(generalheap.Heap[P, int], 0), mk: mk, ms: multiset{desc: d, live: map[int]item{}}}
+}
+
 func newGH(f []string) world {
 	d := parseDesc(f[0])
-
-	return &ghW{h: make(generalheap.Heap[prio, int], 0), ms: multiset{desc: d, live: map[int]item{}}}
+	switch kindOf(f) {
+	case "unit":
+		return mkGH(d, func(p int) prio { return prio{p, d} })
+	case "diff":
+		return mkGH(d, func(p int) prioDiff { return prioDiff{p, d} })
+	case "big":
+		return mkGH(d, func(p int) prioBig { return prioBig{p, d} })
+	case "ext":
+		return mkGH(d, func(p int) prioExt { return prioExt{p, d} })
+	case "asym":
+		return mkGH(d, func(p int) prioAsym { return prioAsym{p, d} })
+	case "two":
+		return mkGH(d, func(p int) prioTwo { return prioTwo{p, d} })
+	}
+	panic("bad comparator kind")
 }
 
 // invariants checks heap order and "handle index = position" on the real array.
-func (w *ghW) invariants(r *hx.Run, op, line string) {
+func (w *ghW[P]) invariants(r *hx.Run, op, line string) {
 	for i := 1; i < w.h.Len(); i++ {
-		if w.ms.before(ik(w.h[i].Key.p), ik(w.h[(i-1)/2].Key.p)) {
+		if w.ms.before(ik(w.h[i].Key.val()), ik(w.h[(i-1)/2].Key.val())) {
 			fail(r, "gh", op, "heap-order", fmt.Sprintf("after %s: element %d sorts before its parent %d", line, i, (i-1)/2))
 		}
 	}
@@ -179,10 +280,10 @@ func (w *ghW) invariants(r *hx.Run, op, line string) {
 }
 
 // state: the array (value:priority per slot) and the index field of every element ever pushed.
-func (w *ghW) state() string {
+func (w *ghW[P]) state() string {
 	a := make([]string, len(w.h))
 	for i, e := range w.h {
-		a[i] = fmt.Sprintf("%d:%d", e.Value, e.Key.p)
+		a[i] = fmt.Sprintf("%d:%d", e.Value, e.Key.val())
 	}
 	idx := make([]int, len(w.elems))
 	for i, e := range w.elems {
@@ -192,13 +293,13 @@ func (w *ghW) state() string {
 	return "[" + strings.Join(a, " ") + "] i" + showInts(idx)
 }
 
-func (w *ghW) exec(r *hx.Run, f []string) (string, string) {
+func (w *ghW[P]) exec(r *hx.Run, f []string) (string, string) {
 	line := strings.Join(f, " ")
 	defer w.invariants(r, f[0], line)
 	switch f[0] {
 	case "push":
 		v, p := atoi(f[1]), atoi(f[2])
-		e := &generalheap.HeapElement[prio, int]{Key: prio{p, w.ms.desc}, Value: v}
+		e := &generalheap.HeapElement[P, int]{Key: w.mk(p), Value: v}
 		heap.Push(&w.h, e)
 		id := len(w.elems)
 		w.elems = append(w.elems, e)
@@ -209,15 +310,15 @@ func (w *ghW) exec(r *hx.Run, f []string) (string, string) {
 		if w.h.Len() == 0 {
 			return line, "none"
 		}
-		e, _ := heap.Pop(&w.h).(*generalheap.HeapElement[prio, int])
+		e, _ := heap.Pop(&w.h).(*generalheap.HeapElement[P, int])
 		if w.removedInner {
 			w.popsAfter++
 		}
-		if it, ok := w.ms.takeBest(e.Value); !ok || it.p.n != e.Key.p {
-			fail(r, "gh", "pop", "pop-minimum", fmt.Sprintf("Pop returned %d:%d which is not a best live element of %v", e.Value, e.Key.p, w.ms.live))
+		if it, ok := w.ms.takeBest(e.Value); !ok || it.p.n != e.Key.val() {
+			fail(r, "gh", "pop", "pop-minimum", fmt.Sprintf("Pop returned %d:%d which is not a best live element of %v", e.Value, e.Key.val(), w.ms.live))
 		}
 
-		return line, fmt.Sprintf("%d %d", e.Value, e.Key.p)
+		return line, fmt.Sprintf("%d %d", e.Value, e.Key.val())
 	case "remove":
 		id := atoi(f[1])
 		if id >= len(w.elems) {
@@ -234,13 +335,13 @@ func (w *ghW) exec(r *hx.Run, f []string) (string, string) {
 		if e.Index() != 0 && e.Index() != w.h.Len()-1 {
 			w.removedInner = true
 		}
-		got, _ := heap.Remove(&w.h, e.Index()).(*generalheap.HeapElement[prio, int])
+		got, _ := heap.Remove(&w.h, e.Index()).(*generalheap.HeapElement[P, int])
 		if got != e {
-			fail(r, "gh", "remove", "remove-handle", fmt.Sprintf("Remove(index of %d) returned another element (%d:%d)", id, got.Value, got.Key.p))
+			fail(r, "gh", "remove", "remove-handle", fmt.Sprintf("Remove(index of %d) returned another element (%d:%d)", id, got.Value, got.Key.val()))
 		}
 		delete(w.ms.live, id)
 
-		return line, fmt.Sprintf("%d %d", got.Value, got.Key.p)
+		return line, fmt.Sprintf("%d %d", got.Value, got.Key.val())
 	case "index":
 		id := atoi(f[1])
 		if id >= len(w.elems) {
@@ -251,7 +352,7 @@ func (w *ghW) exec(r *hx.Run, f []string) (string, string) {
 	case "dump":
 		s := make([]string, len(w.h))
 		for i, e := range w.h {
-			s[i] = fmt.Sprintf("%d:%d", e.Value, e.Key.p)
+			s[i] = fmt.Sprintf("%d:%d", e.Value, e.Key.val())
 		}
 
 		return line, "[" + strings.Join(s, " ") + "]"
@@ -263,14 +364,19 @@ func (w *ghW) exec(r *hx.Run, f []string) (string, string) {
 }
 
 func genGH(rng *hx.Rng, n int) []string {
-	ops := []string{"gh new " + hx.Pick(rng, []string{"asc", "desc"})}
+	kind := hx.Pick(rng, cmpKinds)
+	ops := []string{"gh new " + hx.Pick(rng, []string{"asc", "desc"}) + " " + kind}
 	pushed := 0
 	np := rng.Range(2, 6)
+	spread := 1
+	if rng.Chance(1, 2) { // keys further than 1 apart (a difference comparator then answers other values than -1/1)
+		spread = hx.Pick(rng, []int{2, 10, 1 << 33})
+	}
 	for i := 0; i < n; i++ {
 		var op string
 		switch x := rng.Intn(100); {
 		case x < 40:
-			op = fmt.Sprintf("push %d %d", pushed, rng.Intn(np)-1)
+			op = fmt.Sprintf("push %d %d", pushed, (rng.Intn(np)-1)*spread)
 			pushed++
 		case x < 55:
 			op = "pop"
@@ -306,22 +412,27 @@ type pqAPI interface {
 	isEmpty() bool
 }
 
-type realPQ struct {
-	q    *priorityqueue.PriorityQueue[int, prio]
-	desc bool
+type realPQ[P generalheap.Comparable[P]] struct {
+	q  *priorityqueue.PriorityQueue[int, P]
+	mk func(p int) P
 }
 
-func (q realPQ) push(v int, p string, _ int) (func(), okey) {
-	return q.q.Push(v, prio{atoi(p), q.desc}), ik(atoi(p))
+func mkPQ[P generalheap.Comparable[P]](mk func(p int) P) pqAPI {
+	return realPQ[P]{priorityqueue.New[int, P](), mk}
 }
-func (q realPQ) peek() (int, bool) { return q.q.Peek() }
-func (q realPQ) pop() (int, bool)  { return q.q.Pop() }
-func (q realPQ) popUntil(p string, _ int) ([]int, okey) {
-	return q.q.PopUntil(prio{atoi(p), q.desc}), ik(atoi(p))
+
+func (q realPQ[P]) push(v int, p string, _ int) (func(), okey) {
+	return q.q.Push(v, q.mk(atoi(p))), ik(atoi(p))
 }
-func (q realPQ) popAll() []int { return q.q.PopAll() }
-func (q realPQ) size() int     { return q.q.Size() }
-func (q realPQ) isEmpty() bool { return q.q.IsEmpty() }
+func (q realPQ[P]) peek() (int, bool) { return q.q.Peek() }
+func (q realPQ[P]) pop() (int, bool)  { return q.q.Pop() }
+func (q realPQ[P]) popUntil(p string, _ int) ([]int, okey) {
+	return q.q.PopUntil(q.mk(atoi(p))), ik(atoi(p))
+}
+func (q realPQ[P]) popAll() []int { return q.q.PopAll() }
+func (q realPQ[P]) size() int     { return q.q.Size() }
+func (q realPQ[P]) isEmpty() bool { return q.q.IsEmpty() }
+func (q realPQ[P]) raw() any      { return q.q }
 
 var epoch = time.Unix(1700000000, 0)
 
@@ -430,8 +541,25 @@ type pqW struct {
 
 func newPQ(f []string) world {
 	d := parseDesc(f[0])
+	var q pqAPI
+	switch kindOf(f) {
+	case "unit":
+		q = mkPQ(func(p int) prio { return prio{p, d} })
+	case "diff":
+		q = mkPQ(func(p int) prioDiff { return prioDiff{p, d} })
+	case "big":
+		q = mkPQ(func(p int) prioBig { return prioBig{p, d} })
+	case "ext":
+		q = mkPQ(func(p int) prioExt { return prioExt{p, d} })
+	case "asym":
+		q = mkPQ(func(p int) prioAsym { return prioAsym{p, d} })
+	case "two":
+		q = mkPQ(func(p int) prioTwo { return prioTwo{p, d} })
+	default:
+		panic("bad comparator kind")
+	}
 
-	return &pqW{name: "pq", q: realPQ{priorityqueue.New[int, prio](), d}, ms: multiset{desc: d, live: map[int]item{}}}
+	return &pqW{name: "pq", q: q, ms: multiset{desc: d, live: map[int]item{}}}
 }
 
 func newTPQ(f []string) world {
@@ -453,8 +581,8 @@ func newTPQ(f []string) world {
 func (w *pqW) heapField() reflect.Value {
 	var v reflect.Value
 	switch q := w.q.(type) {
-	case realPQ:
-		v = reflect.ValueOf(q.q).Elem()
+	case interface{ raw() any }:
+		v = reflect.ValueOf(q.raw()).Elem()
 	case realTPQ:
 		// interface -> *priorityQueueAscending/Descending -> embedded *priorityqueue.PriorityQueue
 		v = reflect.ValueOf(q.q).Elem().Field(0).Elem()
@@ -622,7 +750,16 @@ func genPQ(name string, rng *hx.Rng, n int) []string {
 	if name == "tpq" {
 		dirs = append(dirs, "default")
 	}
-	ops := []string{name + " new " + hx.Pick(rng, dirs)}
+	head := name + " new " + hx.Pick(rng, dirs)
+	kind, spread := "unit", 1
+	if name == "pq" { // the Priority type parameter: one Go type per comparator kind
+		kind = hx.Pick(rng, cmpKinds)
+		head += " " + kind
+		if rng.Chance(1, 2) {
+			spread = hx.Pick(rng, []int{2, 10, 1 << 33})
+		}
+	}
+	ops := []string{head}
 	pushed := 0
 	np := rng.Range(2, 6)
 	// the pool of priorities of this history; bounds are drawn from the same pool (plus one beyond)
@@ -631,7 +768,7 @@ func genPQ(name string, rng *hx.Rng, n int) []string {
 		if name == "tpq" {
 			pool = append(pool, instantString(nearInstant(k)))
 		} else {
-			pool = append(pool, strconv.Itoa(k))
+			pool = append(pool, strconv.Itoa(k*spread))
 		}
 	}
 	if rng.Chance(1, 2) { // unusual but legal: far instants / extreme integers
@@ -639,7 +776,11 @@ func genPQ(name string, rng *hx.Rng, n int) []string {
 			if name == "tpq" {
 				pool = append(pool, instantString(hx.Pick(rng, farInstants)))
 			} else {
-				pool = append(pool, strconv.Itoa(hx.Pick(rng, []int{math.MinInt64, math.MinInt64 + 1, -1 << 31, 1 << 31, math.MaxInt64 - 1, math.MaxInt64})))
+				ext := []int{math.MinInt64, math.MinInt64 + 1, -1 << 31, 1 << 31, math.MaxInt64 - 1, math.MaxInt64}
+				if kind == "diff" { // a - b must stay exact in int
+					ext = []int{-1 << 62, -1<<62 + 1, -1 << 31, 1 << 31, 1<<62 - 2, 1<<62 - 1}
+				}
+				pool = append(pool, strconv.Itoa(hx.Pick(rng, ext)))
 			}
 		}
 	}
